@@ -281,6 +281,8 @@ mod sync;
 mod table;
 mod tracing;
 mod tracked_struct;
+#[cfg(feature = "verif-hooks")]
+pub mod verif;
 mod views;
 mod zalsa;
 mod zalsa_local;
